@@ -50,12 +50,13 @@ def run(ctx):
     # 2. old index files
     shared.wal_confinement(ctx, '2')
     shared.drop_table_idempotent(ctx, '2i')
+    shared.index_insert_retried(ctx, '2r')
     pr = ctx.body('db::DbInner::process_reindex')
     if pr:
         for callee, fld in (("log::LogWriter::<'a>::drop_table", '.ReindexBatch.drop_index'), ("log::LogWriter::<'a>::drop_ref_count_table", '.ReindexBatch.drop_ref_count')):
             for s in pr.call_sites(callee):
                 lib.cond_guarded(ctx, '2m drop-logged-only-if-batch-says-so %s' % callee.split('::')[-1], pr, s, 'a DropTable record is logged only depending on the drop field of the reindex batch', fields=[fld])
-                er = pr.call_sites('log::Log::end_record')
+                er = lib.sites_reaching(pr, ['log::Log::end_record'])        # directly or through a helper that ends the record
                 ok = any(e in pr.reaches(s) for e in er)
                 ctx.ob('2n drop-in-same-record %s' % callee.split('::')[-1], 'K2-order', pr.path, 'the drop is part of the record that carries the last batch (end_record follows)', ok, '')
     rx = ctx.body('column::HashColumn::reindex')
@@ -69,17 +70,17 @@ def run(ctx):
             det = 'no ReindexBatch aggregate'
             if aggs:
                 src = op_local(aggs[0]['r']['a'][fi])
-                locs = backward_slice(rx, [src], through_calls=False).locals
-                somes = [(bi, s) for bi in rx.normal_blocks() for s in rx.blocks[bi]['s'] if s['k'] == 'assign' and s['p'][0] in locs and s['r']['k'] == 'agg' and s['r']['ak'] == 'Adt:std::option::Option::Some']
+                # where the Some(..) is made - in reindex itself or in a helper whose result ends up in the field
+                somes = [(b2, bi, x) for (b2, bi, x) in lib.value_sources(rx, src) if isinstance(x.get('r'), dict) and x['r'].get('k') == 'agg' and x['r']['ak'] == 'Adt:std::option::Option::Some']
                 det = '%d Some assignments' % len(somes)
                 ok = len(somes) == 1
-                for bi, s in somes:
+                for b2, bi, x in somes:
                     g = False
-                    for (sw, yes, no) in rx.control_deps(bi):
-                        pol = lib.eq_polarity(rx, sw)
+                    for (sw, yes, no) in b2.control_deps(bi):
+                        pol = lib.eq_polarity(b2, sw)
                         if pol:
                             eq_t, ne_t, ops = pol
-                            sl = backward_slice(rx, [op_place(o) for o in ops if op_place(o)])
+                            sl = backward_slice(b2, [op_place(o) for o in ops if op_place(o)])
                             if eq_t in yes and ne_t in no and any(c.endswith('::total_chunks') for c in sl.calls):
                                 g = True
                     ok = ok and g
@@ -128,15 +129,19 @@ def run(ctx):
     # a reindex batch walks every source page completely: progress advances by whole pages, so an entry skipped inside a
     # page is never migrated and disappears when the old index is dropped
     if rx:
-        ent = rx.call_sites('index::IndexTable::entries', 'ref_count::RefCountTable::entries')
-        ctx.ob('4c page-read-anchor', 'anchor', rx.path, 'reindex reads whole pages of the source table (index and ref-count branch)', len(ent) == 2, str(ent))
+        fam = lib.family(F, rx.path)          # reindex and the helpers extracted from it
+        ents = [(fb, bi) for fb in fam for bi in fb.call_sites('index::IndexTable::entries', 'ref_count::RefCountTable::entries')]
+        ctx.ob('4c page-read-anchor', 'anchor', rx.path, 'reindex reads whole pages of the source table (index and ref-count branch)', len(ents) == 2, str([(fb.path, bi) for fb, bi in ents]))
         TRUNC = re.compile(r'::(take|skip|step_by|take_while|skip_while|nth|nth_back|map_while|zip|advance_by)$')   # positional truncation; filter() on emptiness is legitimate
         bad = []
-        for bi, t in rx.calls():
-            nm = t.get('r') or t.get('f') or ''
-            if TRUNC.search(t.get('f') or '') or TRUNC.search(nm):
-                if t['a'] and op_place(t['a'][0]) is not None and any(x in ent for x, _ in backward_slice(rx, [op_place(t['a'][0])]).call_sites):
-                    bad.append('%s at %s' % ((t.get('f') or nm), rx.loc(bi)))
+        for fb in fam:
+            ent = [bi for b2, bi in ents if b2 is fb]
+            lib.empty_slot_skipped(ctx, '4e empty-slot-skipped-not-terminal' + ('' if fb is rx else ' ' + fb.path), fb, 'a reindex batch skips an empty slot and goes on with the rest of the page')
+            for bi, t in fb.calls():
+                nm = t.get('r') or t.get('f') or ''
+                if TRUNC.search(t.get('f') or '') or TRUNC.search(nm):
+                    if t['a'] and op_place(t['a'][0]) is not None and any(x in ent for x, _ in backward_slice(fb, [op_place(t['a'][0])]).call_sites):
+                        bad.append('%s at %s' % ((t.get('f') or nm), fb.loc(bi)))
         ctx.ob('4d page-entries-iterated-without-adaptors', 'K4-confinement', rx.path,
                'the entries of a source page are iterated with plain slice iteration (no take/skip/filter adaptor that could leave entries of a page behind while the page counter advances)', not bad, '; '.join(bad))
     # 5. collision chain
